@@ -226,9 +226,6 @@ pub struct Known {
     pub deleted: Vec<i64>,
     /// B-tree records (live + tombstones) of the table, from the M-code store
     pub cells: usize,
-    /// how many more records the history may add (small histories stay below the 8-record
-    /// threshold of the AVX2 leaf search, see C30)
-    pub room: usize,
     /// number of key-shift updates generated so far in this history (each shifts by a different
     /// power of two, so shifted keys never collide with each other)
     pub shifts: std::cell::Cell<u32>,
@@ -240,14 +237,16 @@ const BTEXT: &[&str] = &["", "a", "ab", "x", "zz", "dd", "a'b", "é"];
 
 impl DmlGen {
     fn fresh_id(&self, rng: &mut Rng, k: &Known) -> i64 {
-        for _ in 0..20 { let c = rng.range(1, 24); if !k.ids.contains(&c) && !k.deleted.contains(&c) { return c; } }
-        rng.range(25, 60)
+        let hi = 24.max(2 * (k.ids.len() + k.deleted.len()) as i64 + 10);
+        for _ in 0..20 { let c = rng.range(1, hi); if !k.ids.contains(&c) && !k.deleted.contains(&c) { return c; } }
+        rng.range(hi + 1, hi + 40)
     }
     fn some_id(&self, rng: &mut Rng, k: &Known) -> i64 { if k.ids.is_empty() { rng.range(1, 12) } else { *rng.pick(&k.ids) } }
     fn fresh_u(&self, rng: &mut Rng, k: &Known) -> V {
         if rng.chance(1, 5) { return V::Null; }
-        for _ in 0..20 { let c = 100 * rng.range(1, 30); if !k.us.contains(&c) { return V::Int(c); } }
-        V::Int(100 * rng.range(31, 90))
+        let hi = 30.max(2 * k.us.len() as i64 + 10);
+        for _ in 0..20 { let c = 100 * rng.range(1, hi); if !k.us.contains(&c) { return V::Int(c); } }
+        V::Int(100 * rng.range(hi + 1, hi + 60))
     }
     fn val_a(&self, rng: &mut Rng, sc: &Schema) -> V { if !sc.nn && rng.chance(1, 6) { V::Null } else { V::Int(*rng.pick(&[-3i64, 0, 1, 2, 5, 10, 20, 30, 40])) } }
     fn val_b(&self, rng: &mut Rng) -> V { if rng.chance(1, 5) { V::Null } else { V::Text(rng.pick(BTEXT).to_string()) } }
@@ -307,9 +306,15 @@ impl DmlGen {
             E::Bin(if rng.chance(1, 2) { Op::And } else { Op::Or }, Box::new(a), Box::new(b))
         } else { atom(rng) }
     }
+    /// one multi-row INSERT of `n` valid rows (used to start a history from a larger table)
+    pub fn bulk(&self, rng: &mut Rng, sc: &Schema, k: &Known, n: usize) -> Dml {
+        let mut kk = k.clone();
+        let mut rows: Vec<Vec<V>> = (0..n).map(|_| self.good_row(rng, sc, &mut kk)).collect();
+        if sc.df { for r in rows.iter_mut() { if r[2] == V::Null { r[2] = V::Text("n".into()); } } }
+        Dml::Insert { cols: None, rows, returning: false }
+    }
     fn insert(&self, rng: &mut Rng, sc: &Schema, k: &Known, want_fail: bool) -> Dml {
         let n = if rng.chance(1, 2) && !want_fail { 1 } else { 2 + rng.below(3) as usize };
-        let n = n.min(k.room.max(1));
         let mut kk = k.clone();
         let mut rows: Vec<Vec<V>> = vec![];
         let fail_at = if want_fail { Some(rng.below(n as u64) as usize) } else if rng.chance(1, 12) { Some(rng.below(n as u64) as usize) } else { None };
@@ -385,8 +390,8 @@ impl DmlGen {
         let want_fail = self.atomic_bias && rng.chance(1, 2);
         let x = rng.below(100);
         if self.atomic_bias && rng.chance(1, 10) { return self.raw_fail(rng, sc, k); }
-        if k.ids.len() < 3 && x < 70 && k.room > 0 { return self.insert(rng, sc, k, want_fail && !k.ids.is_empty()); }
-        if x < 32 && k.room > 0 { self.insert(rng, sc, k, want_fail) }
+        if k.ids.len() < 3 && x < 70 { return self.insert(rng, sc, k, want_fail && !k.ids.is_empty()); }
+        if x < 32 { self.insert(rng, sc, k, want_fail) }
         else if x < 64 { self.update(rng, sc, k, want_fail) }
         else if x < 94 { Dml::Delete { whr: if rng.chance(1, 14) { None } else { Some(self.pred(rng, sc, k)) }, returning: rng.chance(1, 3) } }
         else { Dml::Truncate }
